@@ -29,4 +29,8 @@ CFOps == { [op |-> "create_file", acc |-> "RDWR", excl |-> x, opath |-> FALSE, o
 RemoveOps == { [op |-> "remove_file"], [op |-> "remove_dir"] }
 RenameOps == { [op |-> "rename", flag |-> f] : f \in {"", "NOREPLACE", "EXCHANGE"} }
 const_Ops == CreateOps \cup CFOps \cup RemoveOps \cup RenameOps
+const_OpsMkRm == { [op |-> "mkdir_all"], [op |-> "remove_all"] }
+TMk == [name |-> "mk", maxlen |-> 3, paths2 |-> {<<"">>}, nodes |-> <<
+    D(5, R, "a"), D(6, 5, "sub"), F(7, R, "f"), L(8, R, "la", <<"a">>), L(9, R, "dang", <<"nonexist">>), L(10, 5, "esc", <<"..", "..", "out">>), L(11, 6, "up", <<"..">>) >>]
+const_TreesMk == <<TMk>>
 =============================================================================
